@@ -18,6 +18,8 @@ static int cap_printf(const char *fmt, ...) { if (strstr(fmt, ": OK")) g_said_ok
 #undef fputs
 /* the tool is entered through its main() (the only name in that file that is not private to it) */
 static bool run_verify_main(const char *path) { char *av[] = { (char *) "mtbl_verify", (char *) path, NULL }; optind = 0; return verify_main(2, av) == 0; }
+/* the same with an undamaged file named first on the command line: state that the tool keeps from one file to the next must not weaken the check of the second */
+static bool run_verify_main2(const char *intact, const char *path) { char *av[] = { (char *) "mtbl_verify", (char *) intact, (char *) path, NULL }; optind = 0; return verify_main(3, av) == 0; }
 
 /* ---- mapping seam: plain mmap, remembered so that it can be dropped after an abort ---- */
 static void *map_addr; static size_t map_len;
@@ -44,7 +46,7 @@ static int verify_tool(const char *path, int *said_ok) {
 
 /* ---- seeds ---- */
 typedef struct {
-	uint8_t *bytes; size_t len; int fd; char path[64];
+	uint8_t *bytes; size_t len; int fd; char path[64]; int fd0; char path0[64];     /* fd0: a second, never damaged copy */
 	ic_file f;
 	size_t nregions;                    /* data blocks + index block */
 	size_t first_idx[12];                /* index of the first entry of each data block in the full sequence */
@@ -58,6 +60,7 @@ static size_t region_len(const seed *s, size_t b) { const ic_block *k = b < s->f
 static void seed_finish(seed *s) {
 	s->fd = tbl_fd_from_bytes(s->bytes, s->len);
 	snprintf(s->path, sizeof s->path, "/proc/self/fd/%d", s->fd);
+	s->fd0 = tbl_fd_from_bytes(s->bytes, s->len); snprintf(s->path0, sizeof s->path0, "/proc/self/fd/%d", s->fd0);
 	if (ic_decode(s->bytes, s->len, &s->f)) { printf("@error \"cksum: seed does not decode: %s\"\n", s->f.err); exit(2); }
 	s->nregions = s->f.nblocks + 1; s->total = 0;
 	for (size_t b = 0; b < s->f.nblocks; b++) { s->first_idx[b] = s->total; for (size_t i = 0; i < s->f.blocks[b].n; i++) { const ic_ent *e = &s->f.blocks[b].e[i]; s->all[s->total++] = (tkv) { e->key, e->klen, e->val, e->vlen }; } }
@@ -103,7 +106,7 @@ static void seed_make(seed *s, int kind) {
 	}
 	seed_finish(s);
 }
-static void seed_free(seed *s) { ic_free(&s->f); free(s->bytes); close(s->fd); }
+static void seed_free(seed *s) { ic_free(&s->f); free(s->bytes); close(s->fd); close(s->fd0); }
 
 /* ---- one damaged file ---- */
 typedef struct { int kind; size_t region; int nbits; uint32_t bit[4]; uint32_t burst_start; uint32_t burst_pat; int is_burst; } fcase;
@@ -138,7 +141,10 @@ static void check_damaged(fcase *c) {
 	g_said_ok = g_said_failed = 0;
 	int lowfd = dup(0); close(lowfd);
 	bool vres = false, vabort = false;
-	if (VH_TRY_ASSERT(jb)) { vres = run_verify_main(s->path); VH_END_ASSERT(); } else { vabort = true; drop_map(); }
+	/* damage to the index block, and every 16th other case: the damaged file is the SECOND file of the run, after an intact one */
+	static uint64_t vseq; bool second = c->region >= s->f.nblocks || (vseq++ & 15) == 0; int ok_expected = 0;
+	if (VH_TRY_ASSERT(jb)) { if (second) { ok_expected = 1; vres = run_verify_main2(s->path0, s->path); } else vres = run_verify_main(s->path); VH_END_ASSERT(); } else { vabort = true; drop_map(); }
+	if (second) { VH_COUNT("verify_as_second_file", 1); if (!vabort && g_said_ok < 1) vh_violation("intact-rejected", "mtbl_verify <intact> <damaged>: the intact first file is not reported OK"); g_said_ok -= g_said_ok >= ok_expected ? ok_expected : g_said_ok; }
 	/* verify_file() of the tool never closes the descriptor it opens (harmless in a command line tool, fatal in a loop): close it here,
 	 * otherwise later cases could not even open the file and would count as "rejected" for the wrong reason */
 	syscall(SYS_close_range, (unsigned) lowfd, ~0U, 0);
